@@ -19,6 +19,8 @@ pub enum Family {
     Condvar,
     /// Barrier, Once, park/unpark, yield
     Sync2,
+    /// park/unpark with observers (small, mostly passing trees with spuriously-wakeable tasks)
+    Park,
     /// std mpsc
     Chan,
     /// BatchSemaphore, threads only
@@ -38,6 +40,7 @@ pub const ALL_FAMILIES: &[Family] = &[
     Family::Atomics,
     Family::Condvar,
     Family::Sync2,
+    Family::Park,
     Family::Chan,
     Family::Sem,
     Family::SemAsync,
@@ -58,6 +61,8 @@ pub struct GenCfg {
     /// allow control ops (SkipUnlessLast) and Rand draws
     pub control: bool,
     pub rand: bool,
+    /// allow reset_step_count ops
+    pub resets: bool,
     /// allow failing asserts (uncaught panics)
     pub asserts: bool,
     /// allow LockPanic (poisoning)
@@ -68,7 +73,7 @@ pub struct GenCfg {
 
 impl GenCfg {
     pub fn small(family: Family) -> Self {
-        GenCfg { family, max_tasks: 3, max_ops: 3, max_main_ops: 2, control: true, rand: false, asserts: false, poison: false, avoid_known: true }
+        GenCfg { family, max_tasks: 3, max_ops: 3, max_main_ops: 2, control: true, rand: false, resets: false, asserts: false, poison: false, avoid_known: true }
     }
 }
 
@@ -174,6 +179,7 @@ enum K {
     Rand,
     Skip,
     Assert,
+    Reset,
 }
 
 fn menu(cfg: &GenCfg) -> Vec<K> {
@@ -185,6 +191,7 @@ fn menu(cfg: &GenCfg) -> Vec<K> {
         Family::Atomics => vec![ALoad, ALoad, AStore, AStore, ASwap, ACas, ACas, AFetchAdd, AFetchAdd],
         Family::Condvar => vec![Lock, Unlock, CvWait, CvWait, CvWaitWhile, CvWaitWhile, NotifyOne, NotifyOne, NotifyAll, MSet, MSet, MGet],
         Family::Sync2 => vec![BWait, BWait, BWait, CallOnce, CallOnce, OnceDone, OnceDone, Park, Park, Unpark, Unpark, Yield, ALoad, AStore],
+        Family::Park => vec![Park, Park, Unpark, Unpark, Unpark, Yield, ALoad, AStore, AFetchAdd],
         Family::Chan => vec![Send, Send, Send, TrySend, TrySend, Recv, Recv, Recv, TryRecv, TryRecv, DropTx, DropRx, ALoad, AStore],
         Family::Sem => vec![Acquire, Acquire, Acquire, TryAcquire, TryAcquire, Release, Release, Release, Close, Avail, ALoad, AStore],
         Family::SemAsync => vec![Acquire, Acquire, TryAcquire, Release, Release, Release, Close, Avail, AcqStart, AcqStart, AcqStart, AcqFinish, AcqFinish, AcqDrop, AcqDrop, Yield],
@@ -207,6 +214,9 @@ fn menu(cfg: &GenCfg) -> Vec<K> {
     }
     if cfg.asserts {
         m.push(Assert);
+    }
+    if cfg.resets {
+        m.push(Reset);
     }
     if cfg.poison && matches!(cfg.family, Family::Locks | Family::Condvar | Family::Mixed | Family::All) {
         m.push(LockPanic);
@@ -484,6 +494,7 @@ pub fn build(raw: &RawProg, cfg: &GenCfg) -> (Prog, FixStats) {
                     ops.push(Op::SkipUnlessLast(v, usize::MAX));
                 }
                 K::Assert => ops.push(Op::AssertLast((r.extra % 4) as i64)),
+                K::Reset => ops.push(Op::ResetSteps),
             }
         }
         // release what is still held (guards are dropped at task end anyway; make it explicit so that
